@@ -10,6 +10,7 @@ from concurrent.futures import ProcessPoolExecutor
 Z3_MS = int(os.environ.get("VCGEN_Z3_MS", "10000"))
 CVC5_MS = int(os.environ.get("VCGEN_CVC5_MS", "15000"))
 Z3B_MS = int(os.environ.get("VCGEN_Z3B_MS", "20000"))
+SEED_MS = int(os.environ.get("VCGEN_SEED_MS", "4000"))
 FIN_MS = int(os.environ.get("VCGEN_FIN_MS", "20000"))
 
 
@@ -21,10 +22,8 @@ def _z3_check(smt2, ms, tweak):
     if tweak == 1:
         s.set("smt.mbqi", False)
         s.set("smt.auto_config", False)
-    elif tweak == 2:
-        s.set("smt.mbqi", True)
-        s.set("smt.mbqi.max_iterations", 200)
-        s.set("smt.qi.eager_threshold", 100)
+    elif tweak >= 10:
+        s.set("smt.random_seed", tweak)       # same problem, other search order: quantifier instantiation is order-sensitive
     s.from_string(smt2)
     t = time.time()
     r = s.check()
@@ -84,6 +83,16 @@ def solve_one(job):
     log.append("z3-nombqi:%s:%.2fs" % (r3, dt3))
     if r3 == "unsat":
         return dict(name=name, verdict="discharged", backend="z3-nombqi", seconds=total, model="", log=log)
+    if r3 != "sat" and r2 != "sat":
+        for seed in (12, 17):
+            try:
+                r4, dt4, _m, _ = _z3_check(smt2, SEED_MS, seed)
+            except Exception:
+                r4, dt4 = "unknown", 0.0
+            total += dt4
+            log.append("z3-seed%d:%s:%.2fs" % (seed, r4, dt4))
+            if r4 == "unsat":
+                return dict(name=name, verdict="discharged", backend="z3-seed%d" % seed, seconds=total, model="", log=log)
     if r3 == "sat" or r2 == "sat":
         return dict(name=name, verdict="refuted", backend="z3-nombqi" if r3 == "sat" else "cvc5", seconds=total, model=model, log=log)
     # finite-instance counter-model search (candidate refutation; see refute.py)
